@@ -154,7 +154,33 @@ def search(seed=0, windows=40):
             if str(res3).endswith("POSITIVE") and r4.threat_level != ThreatLevel.NONE:
                 return n, (f"re-training on a new window, then inspecting that window, reports {r4.threat_level.name}/{r4.action.name} "
                            f"({r4.violations[:2]}): the watcher still judges against the old baseline (window {w}, seed {seed})")
+    # recovery WITHOUT a reset: train -> numeric-only drift with unchanged words/structure (so the remembered key equals the baseline's) inspected
+    # until the threat is confirmed and remembered -> window back inside the baseline -> every inspection is NONE again, whatever is pending
+    for drift_rt, flag, inspections in itertools.product((5.0, 50.0), (False, True), (3, 4, 5)):
+        n += 1
+        with contextlib.redirect_stdout(io.StringIO()):
+            sysm = ImmuneSystem(min_training_samples=10, min_observations=10, window_size=10)
+            sysm.register_agent("w")
+            for _ in range(10):
+                sysm.record_observation("w", "the answer is forty two", 1.0, 0.9)
+            res = sysm.train_agent("w")
+            if not str(res).endswith("POSITIVE"):
+                continue
+            for _ in range(10):
+                sysm.record_observation("w", "the answer is forty two", drift_rt, 0.9)
+            if flag:
+                sysm.flag_agent("w", "suspect")
+            levels = [sysm.inspect("w").threat_level.name for _ in range(inspections)]
+            for _ in range(10):
+                sysm.record_observation("w", "the answer is forty two", 1.0, 0.9)
+            inside = not sysm.profiles["w"].check(sysm.displays["w"].generate_peptide())
+            after = [sysm.inspect("w") for _ in range(2)]
+        if inside and any(r.threat_level != ThreatLevel.NONE for r in after):
+            r = [x for x in after if x.threat_level != ThreatLevel.NONE][0]
+            return n, (f"train, drift (response time {drift_rt}, same words; manual flag={flag}) inspected {inspections}x -> {levels}, then recovery into "
+                       f"the baseline: still reported {r.threat_level.name}/{r.action.name} ({r.violations[:1]}) with no current violation")
     return n, None
+
 
 def search_memory():
     """Witness finder for the ImmuneMemory contracts (recall / recall_by_hashes / prune_old / import_signatures): every memory of <= 2 stored
